@@ -51,7 +51,7 @@ def excl(name):
             "range(0, old(len(self.ParameterInitialSteadyStateExcludedVariables)))))" % (name, name))
 
 
-FRAME_FIELDS = "heap_unchanged_except('tyof', 'len', 'el.*', 'f.EquationSolver.TimeSeriesInitialSteadyState')"
+FRAME_FIELDS = "heap_unchanged_except('tyof', 'len.*', 'el.*', 'f.EquationSolver.TimeSeriesInitialSteadyState')"
 COPY_FRESH = 'fresh(new_solver) and fresh(new_solver.TimeSeries) and fresh(new_solver.Parser)'
 COPY_SERIES_FRESH = 'all(implies(has(new_solver.TimeSeries, s), fresh(new_solver.TimeSeries[s])) for s in strings())'
 KQ = 'keys(self.TimeSeries)[q]'
@@ -72,7 +72,7 @@ P.verify(fn(
     hints={('empty_list', 'bad_variables'): STR},
     loops={
         0: LoopSpec(header='for (var, dummy) in new_solver.Parser.Exogenous', index='e',
-                    modifies=['len', 'el.*', 'dh.*', 'dv.*', 'dk', 'tyof'], invariants=[
+                    modifies=['len.*', 'el.*', 'dh.*', 'dv.*', 'dk', 'tyof'], invariants=[
             ('copy_is_fresh', COPY_FRESH),
             ('copy_series_fresh', COPY_SERIES_FRESH),
             ('own_state_untouched', "heap_unchanged_except('tyof')"),
@@ -80,7 +80,7 @@ P.verify(fn(
             ('copy_values_finite', 'all_series_finite(new_solver.TimeSeries)'),
         ]),
         1: LoopSpec(header='for step in range(1, T + 1)', index='st',
-                    modifies=['len', 'el.*', 'dh.*', 'dv.*', 'dk', 'tyof', 'f.EquationSolver.TimeSeriesStepTrace'], invariants=[
+                    modifies=['len.*', 'el.*', 'dh.*', 'dv.*', 'dk', 'tyof', 'f.EquationSolver.TimeSeriesStepTrace'], invariants=[
             ('copy_is_fresh', COPY_FRESH),
             ('copy_not_traced', 'is_none(new_solver.TraceStep)'),
             ('copy_series_fresh', COPY_SERIES_FRESH),
@@ -89,7 +89,7 @@ P.verify(fn(
             ('copy_values_finite', 'all_series_finite(new_solver.TimeSeries)'),
         ]),
         2: LoopSpec(header='for var in self.TimeSeries.keys()', index='v', ghost={'H1': 'heap_now()'},
-                    modifies=['len', 'el.*', 'tyof'], invariants=[
+                    modifies=['len.*', 'el.*', 'tyof'], invariants=[
             ('bounds', '0 <= v and v <= len(keys(self.TimeSeries))'),
             ('locals_fresh', COPY_FRESH + ' and fresh(bad_variables) and fresh(excluded) and bad_variables is not excluded'),
             ('copy_series_fresh', COPY_SERIES_FRESH),
